@@ -85,7 +85,7 @@ func view(res router.VerifR2Result, isEpic bool) fwdView {
 func (c *c13) run() {
 	e, r := c.e, c.r
 	e.Rule = "EPIC packets at a router with parent/child/core/sibling-owned interfaces: paths of 1-3 segments, the local hop as " +
-		"transit / effective cross-over / delivery / origin, biased so that the hop validated last is the penultimate, the last or another one; " +
+		"transit / effective cross-over / peering hop / delivery / origin, biased so that the hop validated last is the penultimate, the last or another one; " +
 		"timestamps fresh, future or expired (>= 0.5 s from the bounds against the router's own clock; exact bounds through VerifyTimestamp with an explicit now); " +
 		"HVFs valid or with one mutation (bit flip, MAC of the arrival hop instead of the validated one, other key, stale source AS/host/packet id/info timestamp, PHVF/LHVF swapped); " +
 		"each packet is also run as a plain SCION packet (twin) to supply the inner disposition; non-trivial = inner disposition forward"
@@ -105,7 +105,7 @@ func (c *c13) run() {
 
 func (c *c13) one(a *asCfg, k int) {
 	r := c.r
-	kind := []int{0, 0, 1, 1, 1, 2, 2, 3}[r.Intn(8)]
+	kind := []int{0, 0, 1, 1, 1, 2, 2, 3, 4, 4}[r.Intn(10)]
 	wantRel := []int{-1, 1, 1, 2}[r.Intn(4)]
 	sc, hops := randScenario(a, r, kind, wantRel)
 	// time class
@@ -132,10 +132,10 @@ func (c *c13) one(a *asCfg, k int) {
 	vh := b.dec.HopFields[vIdx]
 	vinf := b.dec.InfoFields[vSeg]
 	beta := vinf.SegID
-	if !sc.xover && !vinf.ConsDir && a.ingressOf(sc.via) != 0 {
+	if !sc.xover && !sc.peering && !vinf.ConsDir && a.ingressOf(sc.via) != 0 {
 		beta ^= binary.BigEndian.Uint16(vh.Mac[:2])
 	}
-	auth := hopMacFull(a.key, beta, vinf.Timestamp, vh.ExpTime, vh.ConsIngress, vh.ConsEgress)
+	auth := a.validatedAuth(b)
 	// source host (any length the address header can carry)
 	srcHost := randHost(r)
 	var rawSrc []byte
@@ -174,7 +174,7 @@ func (c *c13) one(a *asCfg, k int) {
 			ah := b.dec.HopFields[sc.curHop]
 			ainf := b.dec.InfoFields[sc.curSeg]
 			ab := ainf.SegID
-			if !ainf.ConsDir && a.ingressOf(sc.via) != 0 {
+			if !ainf.ConsDir && a.ingressOf(sc.via) != 0 && !sc.peering {
 				ab ^= binary.BigEndian.Uint16(ah.Mac[:2])
 			}
 			copy(*tgt, epicMacOwn(hopMacFull(a.key, ab, ainf.Timestamp, ah.ExpTime, ah.ConsIngress, ah.ConsEgress),
@@ -272,6 +272,9 @@ func (c *c13) one(a *asCfg, k int) {
 	xs := ""
 	if sc.xover {
 		xs = "x"
+	}
+	if sc.peering {
+		xs = "p"
 	}
 	tag := fmt.Sprintf("%s%s/%s/%s/%s", relName, xs, tclass, mut, ans)
 	if inner != "fwd" {
